@@ -1142,7 +1142,7 @@ var c17FixedPaths = []string{"/a<k>", "/a/<k>", "a<k>", "a/b", "/a/b/", "//a//b/
 
 func c17Gen(tier string, rng *rand.Rand) []c17Case {
 	var cs []c17Case
-	nd, ns := 300, 220
+	nd, ns := 220, 160
 	if tier == "thorough" {
 		nd, ns = 1200, 2500
 	}
